@@ -167,6 +167,9 @@ def run_case(case):
         opts['repeat'] = 2
     if rng.random() < 0.2:
         opts['buffer'] = True
+    if rng.random() < 0.2:
+        # the layer runs in a subprocess, which writes the report files
+        opts['processes'] = 2
     rep = opts.get('repeat') or 1
     root = vworld.materialise(spec)
     xmldir = os.path.join(root, 'xmlout')
@@ -191,6 +194,8 @@ def run_case(case):
                 mech = 'xml-write-raised-' + type(w.raised).__name__
             V('run-aborted', mech, tb=tb[-900:])
             return {'viol': viol, 'evals': 1, 'counters': counters}
+        if opts.get('processes'):
+            C('subprocess_written_reports')
         rdir = os.path.join(xmldir, 'testreports')
         files = sorted(os.listdir(rdir)) if os.path.isdir(rdir) else []
         cases_by_class = {}
